@@ -245,19 +245,32 @@ def r132(ctx, f, table) -> None:
     hf = ctx.proj.cls(SEARCH, 'HasFlagSearchCriteria')
     m = hf.own_method('matches')
     rets = [r for r in walk_local(m.node) if isinstance(r, ast.Return)]
+    def is_membership(v) -> bool:
+        return isinstance(v, ast.Compare) and len(v.ops) == 1 and isinstance(
+            v.ops[0], ast.In) and txt(v.left) == 'self.flag' \
+            and 'get_flags' in txt(v.comparators[0])
     ok = False
+    has_src = False
     if len(rets) == 1:
         e = rets[0].value
+        hs, xs = set(), {'self.expected'}
+        for x in ast.walk(e):
+            if isinstance(x, ast.Name):
+                for v in resolve_local(m, x):
+                    if is_membership(v):
+                        hs.add(x.id)
+                    if txt(v) == 'self.expected':
+                        xs.add(x.id)
+            if is_membership(x):
+                hs.add(txt(x))
+        has_src = bool(hs)
         try:
-            ok = all(bool(eval_static(e, {'has_flag': h, 'expected': x}))
-                     == (h == x)
-                     for h in (False, True) for x in (False, True))
+            ok = has_src and all(
+                bool(eval_static(e, {**{k: h for k in hs},
+                                     **{k: x for k in xs}})) == (h == x)
+                for h in (False, True) for x in (False, True))
         except ValueError:
             ok = False
-    has_src = any(isinstance(v, ast.Compare) and isinstance(
-        v.ops[0], ast.In) and txt(v.left) == 'self.flag'
-        and 'get_flags' in txt(v.comparators[0])
-        for _, v in local_assigns(m, 'has_flag') if v is not None)
     R.check(ok and has_src, m, m.node, 'HasFlagSearchCriteria.matches == '
             '(flag present == expected)',
             'the flag criteria does not return (flag in flags) == expected')
